@@ -276,3 +276,60 @@ Proof.
   rewrite D. simpl. rewrite get_put_same, get_put_other, put_sock.
   split; [auto|]. split; [auto|]. split; [auto|]. intros Pc. destruct (Fs Pc) as [F1 F2]. split; [rewrite <- F1|rewrite <- F2]; destruct x; reflexivity.
 Qed.
+
+(* ---- the same when the new master stops BY ITSELF, with any exit status (its workers cannot boot: 3 / 4): the old master goes
+        on, single again - the exit status of the re-executed master is of no consequence for its parent ------------------- *)
+Theorem failed_upgrade_restores : forall c s x code, WF s -> (pidconf c = true -> PF s) ->
+  m_alive (get s x) = true -> m_alive (get s (other x)) = true -> m_reexec (get s x) = m_pid (get s (other x)) ->
+  let s' := run c s [Halt (other x) code; NoticeChild x] in
+  get s' x = set_m_reexec (get s x) 0 /\ m_alive (get s' (other x)) = false /\ sockf s' = sockf s /\
+  (pidconf c = true -> fsP s' = fsP s /\ fsP2 s' = None).
+Proof.
+  intros c s x code W P Al Ao Rx s'.
+  pose proof W as [Wa Wb Wne [A1 [A2 A3]] [B1 [B2 B3]] Wp].
+  assert (Po : 0 < m_pid (get s (other x))) by (destruct x; simpl in *; auto).
+  (* the other master is the child: its master_pid is set *)
+  assert (Mo : m_mpid (get s (other x)) = m_pid (get s x)).
+  { destruct x; simpl in *; destruct (Wp ltac:(auto) ltac:(auto)) as [[P1 P2]|[P1 P2]]; auto.
+    - destruct (Z.eq_dec (m_mpid (ma s)) 0) as [Q|Q]; [pose proof (B1 Ao); lia|]. destruct (A3 Al Q). lia.
+    - destruct (Z.eq_dec (m_mpid (mb s)) 0) as [Q|Q]; [pose proof (A1 Ao); lia|]. destruct (B3 Al Q). lia. }
+  assert (Px : 0 < m_pid (get s x)) by (destruct x; simpl in *; auto).
+  assert (Fl : unlink_flag c (get s (other x)) = false).
+  { unfold unlink_flag. assert (E : (m_mpid (get s (other x)) =? 0) = false) by (apply Z.eqb_neq; lia). rewrite E.
+    rewrite andb_false_r. reflexivity. }
+  set (s1 := step c s (Halt (other x) code)).
+  assert (S1 : get s1 x = get s x /\ m_alive (get s1 (other x)) = false /\ m_pid (get s1 (other x)) = m_pid (get s (other x)) /\
+               sockf s1 = sockf s /\ (pidconf c = true -> fsP s1 = fsP s /\ fsP2 s1 = None)).
+  { unfold s1, step. rewrite Ao. unfold do_exit. rewrite Fl. simpl.
+    destruct (pidconf c) eqn:Pc.
+    - destruct (pf_unlink_masters s (get s (other x))) as [U1 [U2 U3]].
+      assert (Gx : get (pf_unlink s (get s (other x))) x = get s x) by (destruct x; simpl; auto).
+      rewrite get_put_other2, get_put_same. simpl. rewrite put_sock, pf_unlink_sock.
+      split; [auto|]. split; [auto|]. split; [auto|]. split; [auto|]. intros _.
+      (* the child holds '.2' *)
+      pose proof (P eq_refl) as PFs.
+      assert (Mp : m_mpid (get s (other x)) <> 0) by lia.
+      assert (Nn : m_pname (get s (other x)) = PDot2 /\ fs_get s PDot2 = Some (m_pid (get s (other x)))).
+      { pose proof (pf_get _ (other x) PFs Ao) as [Ho1 [Ho2 [Ho3 Ho4]]].
+        pose proof (pf_get _ x PFs Al) as [Hx1 [Hx2 [Hx3 Hx4]]].
+        assert (Mx : m_mpid (get s x) = 0).
+        { destruct (Z.eq_dec (m_mpid (get s x)) 0); auto. exfalso.
+          destruct x; simpl in *; [destruct (A3 Al n)|destruct (B3 Al n)]; lia. }
+        assert (Nx : m_pname (get s x) = PMain).
+        { destruct (m_pname (get s x)) eqn:E; auto. exfalso. apply Hx4; auto. }
+        destruct (m_pname (get s (other x))) eqn:E; [|auto].
+        exfalso. rewrite Nx in Hx1. rewrite Hx1 in Ho1. inversion Ho1. destruct x; simpl in *; congruence. }
+      destruct Nn as [Nn Fn].
+      pose proof (pf_get _ (other x) PFs Ao) as [Ho1 [Ho2 _]].
+      replace (fsP (put _ (other x) _)) with (fs_get (pf_unlink s (get s (other x))) PMain) by (destruct x; reflexivity).
+      replace (fsP2 (put _ (other x) _)) with (fs_get (pf_unlink s (get s (other x))) PDot2) by (destruct x; reflexivity).
+      unfold pf_unlink. rewrite Ho2, Ho1, Z.eqb_refl, Nn. split; [apply fs_get_put_other; discriminate|apply fs_get_put_same].
+    - rewrite get_put_other2, get_put_same. simpl. rewrite put_sock. split; [auto|]. split; [auto|]. split; [auto|]. split; [auto|]. intros Q; discriminate. }
+  destruct S1 as [Gx [Do [Pd [Sk Fs]]]].
+  assert (Es : s' = step c s1 (NoticeChild x)) by reflexivity. rewrite Es. clearbody s1. cbn [step].
+  rewrite Gx, Al. assert (E : (m_reexec (get s x) =? 0) = false) by (apply Z.eqb_neq; lia). rewrite E. simpl.
+  assert (D : alive_pid s1 (m_reexec (get s x)) = false).
+  { rewrite Rx. unfold alive_pid. destruct x; simpl in *; rewrite Gx, Al, Do; simpl; rewrite ?orb_false_r; apply Z.eqb_neq; lia. }
+  rewrite D. simpl. rewrite get_put_same, get_put_other, put_sock.
+  split; [auto|]. split; [auto|]. split; [auto|]. intros Pc. destruct (Fs Pc) as [F1 F2]. split; [rewrite <- F1|rewrite <- F2]; destruct x; reflexivity.
+Qed.
